@@ -152,23 +152,45 @@ func checkVerifyJSONsFlow(c *fw.Ctx) {
 			continue
 		}
 		nd++
-		conds := condsOf(call.Block())
+		_ = condsOf
 		key := fw.Sig(call.Common().Args[1])
 		switch {
 		case strings.Contains(key, "KeyDatabase"):
-			exp := strings.Contains(conds, ".ExpiredTS != 0)")
-			cur := strings.Contains(conds, "< ") && strings.Contains(conds, ".ValidUntilTS)") && strings.Contains(conds, ".ExpiredTS == 0)")
-			c.Check(exp || cur, rule, "a database key prunes its request only if it is expired or still valid now", c.P.Pos(call.Pos()), conds, "request pruned under ["+conds+"]")
-			if cur {
-				c.Check(strings.Contains(conds, "(gmsl/spec.AsTimestamp(time.Now()) < "), rule, "'still valid' compares the current time with valid_until_ts", c.P.Pos(call.Pos()), "", conds)
+			// every way of reaching the prune has established: expired, or now < valid_until_ts
+			pcs, okPC := fw.PathConds(fn)
+			if !okPC {
+				c.Undecided(rule, "a database key prunes its request only if it is expired or still valid now", "path condition too large")
+				break
 			}
+			okAll := len(pcs[call.Block()]) > 0
+			why := ""
+			for _, term := range pcs[call.Block()] {
+				okTerm := false
+				for _, l := range term {
+					if strings.HasSuffix(l.Atom, ".ExpiredTS == 0)") && !l.Pos {
+						okTerm = true // expired
+					}
+					if l.Pos && strings.HasPrefix(l.Atom, "(gmsl/spec.AsTimestamp(time.Now()) < ") && strings.HasSuffix(l.Atom, ".ValidUntilTS)") {
+						okTerm = true // still valid now
+					}
+					if !l.Pos && strings.HasSuffix(l.Atom, " < gmsl/spec.AsTimestamp(time.Now()))") && strings.Contains(l.Atom, ".ValidUntilTS") {
+						// !(valid_until < now) is valid_until >= now: not the strict rule
+						okTerm = false
+					}
+				}
+				if !okTerm {
+					okAll = false
+					why = fw.DNF{term}.String()
+				}
+			}
+			c.Check(okAll, rule, "a database key prunes its request only if it is expired or still valid now", c.P.Pos(call.Pos()), "", "request pruned under ["+why+"]: neither `expired_ts != 0` nor `now < valid_until_ts` is established on that path")
 		case strings.Contains(key, "KeyFetchers"):
 			c.Ok(rule, "a fetched key prunes its request", c.P.Pos(call.Pos()), "")
 		default:
 			c.Fail(rule, "requests are pruned only by database or fetcher results", c.P.Pos(call.Pos()), "delete of "+key)
 		}
 	}
-	c.Min(rule+" prune sites", nd, 3)
+	c.Min(rule+" prune sites", nd, 1)
 	// StoreKeys on every path from the fetcher loop to a success return after it
 	succ := fw.ErrNilSuccess(fn, fw.ErrIndex(fn), nil)
 	lateOnly := func(r *ssa.Return, reach map[*ssa.BasicBlock]bool, removed map[fw.Edge]bool) []fw.SuccessPath {
@@ -223,7 +245,7 @@ func checkVerifyJSONsFlow(c *fw.Ctx) {
 			c.Fail(rule, "VerifyJSONs itself never marks a result successful", c.P.Pos(fw.InstrPos(st)), "stores "+fw.Sig(st.Val))
 		}
 	}
-	c.Min(rule+" initial failure stores", nonNil, 3)
+	c.Min(rule+" initial failure stores", nonNil, 1)
 	if pk := mustFunc(c, rule, "(*KeyRing).publicKeyRequests"); pk != nil {
 		ok := false
 		for _, iff := range fw.Ifs(pk) {
@@ -262,7 +284,7 @@ func checkFetchers(c *fw.Ctx) {
 			}
 		}
 	}
-	c.Min(rule+" accept sites", n, 3)
+	c.Min(rule+" accept sites", n, 1)
 	// perspective: notary signature verified with a configured key, decided per response
 	if fn := c.P.Func("(*PerspectiveKeyFetcher).FetchKeys"); fn != nil {
 		for _, call := range fw.CallsTo(fn, false, mapper) {
